@@ -586,10 +586,19 @@ class ChangePoint(CovarianceFunction):
 
         for i in range(self.n_kernels - 1):
             w = w_vals[i]
+            # the kernels either side of this change-point are also weighted
+            # by their other neighbouring change-point (if there is one)
+            below, above = 1.0, 1.0
+            if i > 0:
+                below = w_vals[i - 1][:, None] * w_vals[i - 1][None, :]
+            if i < self.n_kernels - 2:
+                above = (1 - w_vals[i + 1])[:, None] * (1 - w_vals[i + 1])[None, :]
             for dw in w_grads[i]:
                 A = -dw[:, None] * (1 - w)[None, :]
                 B = dw[:, None] * w[None, :]
-                gradients.append(K_vals[i] * (A + A.T) + K_vals[i + 1] * (B + B.T))
+                gradients.append(
+                    K_vals[i] * below * (A + A.T) + K_vals[i + 1] * above * (B + B.T)
+                )
         return covar, gradients
 
     @staticmethod
